@@ -112,3 +112,24 @@ Theorem groups_of_one_object_any_order_lemma mark fields order :
   (forall kv l, In kv fields -> mark (fst kv) = Some l -> In l order) ->
   fold_left (fun acc lab => obj_merge acc (TObj (group_obj mark fields lab))) order (TObj (initial_obj mark fields)) = TObj fields.
 Proof. intros N C. rewrite fold_obj_merge. f_equal. now apply flat_groups_merge_lemma. Qed.
+
+(** groups that failed deliver null and leave their placeholders: the object holds the keys of exactly the groups that
+    arrived alive, null everywhere else in a deferred position - which is what the content function prescribes for a
+    dead group (propagation stops at the object) *)
+Definition group_payload mark fields (p : string * bool) : jt := if snd p then TObj (group_obj mark fields (fst p)) else TNull.
+
+Theorem groups_with_failures_lemma mark fields (order : list (string * bool)) :
+  NoDup (map fst fields) ->
+  fold_left (fun acc p => obj_merge acc (group_payload mark fields p)) order (TObj (initial_obj mark fields))
+  = TObj (map (partial_val mark (rev (map fst (filter snd order)))) fields).
+Proof.
+  intros N.
+  assert (forall done, fold_left (fun acc p => obj_merge acc (group_payload mark fields p)) order (TObj (map (partial_val mark done) fields))
+                       = TObj (map (partial_val mark (rev (map fst (filter snd order)) ++ done)) fields)) as G.
+  { induction order as [|[lab alive] order IH]; intros done; [reflexivity|]. cbn [fold_left filter snd].
+    destruct alive; cbn [group_payload snd fst obj_merge map rev].
+    - fold (merge_keys (map (partial_val mark done) fields) (group_obj mark fields lab)). rewrite (step_group mark fields N).
+      rewrite IH. now rewrite <- app_assoc.
+    - apply IH. }
+  replace (initial_obj mark fields) with (map (partial_val mark []) fields) by reflexivity. now rewrite G, app_nil_r.
+Qed.
